@@ -47,6 +47,7 @@ fn generate(rng: &mut Rng) -> ConnScenario {
     client.uuid = format!("{:032x}", gen_uuid(rng));
     client.enc = gen_enc(rng);
     let wall = Wall::default();
+    let mut prior_cookie: Option<Vec<u8>> = None;
     // optionally a valid (or subtly invalid) cookie carrying another identity
     if intent == 3 && rng.chance(1, 2) {
         let id = Identity {
@@ -67,6 +68,16 @@ fn generate(rng: &mut Rng) -> ConnScenario {
         }
         let body = cookie_json(ts, &addr, &id, Some("old-target"));
         client.auth_cookie = Some(signed_cookie(&sec, &body));
+        // a forgery that leans on an earlier connection: that one presents a genuine cookie (and is accepted),
+        // this one presents the genuine tag in front of a body naming somebody else
+        if secret.is_some() && rng.chance(1, 5) {
+            let genuine_id = Identity { name: format!("Genuine{}", rng.below(100)), uuid: gen_uuid(rng), props: vec![] };
+            let genuine = signed_cookie(secret.as_ref().unwrap(), &cookie_json(wall.base_s - rng.below(600), &client_addr, &genuine_id, Some("old-target")));
+            let mut forged = genuine[..32].to_vec();
+            forged.extend_from_slice(&cookie_json(wall.base_s - rng.below(600), &client_addr, &id, Some("old-target")));
+            client.auth_cookie = Some(forged);
+            prior_cookie = Some(genuine);
+        }
     }
     let verdict = match rng.below(10) {
         0 => AuthRes::Error,
@@ -97,8 +108,17 @@ fn generate(rng: &mut Rng) -> ConnScenario {
         client,
         wplan: vec![],
         cap_ns: secs(600),
+        prelude: vec![],
     };
     zero_time_noise(rng, &mut sc);
+    if let Some(genuine) = prior_cookie {
+        let mut prior = sc.clone();
+        prior.client.auth_cookie = Some(genuine);
+        prior.client.enc = EncVariant::Honest;
+        prior.seed ^= 0x0101_0101;
+        prior.client.rng ^= 0x11;
+        sc.prelude = vec![prior];
+    }
     sc
 }
 
@@ -277,8 +297,17 @@ impl Check for C01 {
         }
         let donor_used = with_donor.is_some();
         let sc = with_donor.as_ref().unwrap_or(sc);
+        let prior: Vec<(&ConnScenario, ConnOutcome)> = sc.prelude.iter().filter(|p| p.prelude.is_empty() && transport_is_zero_time(p) && matches!(p.client.intent, 1..=3) && p.client.script.is_none() && p.client.mutations.is_empty()).map(|p| (p, run_conn(p))).collect();
         let out = run_conn(sc);
         let mut rep = base_report(&out);
+        for (p, o) in &prior {
+            rep.runs += 1;
+            rep.sim_ns += o.end_ns;
+            rep.trace_hash = rep.trace_hash.rotate_left(13) ^ o.trace_hash();
+            rep.full_hash = rep.full_hash.rotate_left(13) ^ o.full_hash();
+            *rep.faults.entry("earlier_connection_presented_a_genuine_cookie".into()).or_insert(0) += 1;
+            check(p, o, &mut rep);
+        }
         if donor_used {
             rep.runs = 2;
             *rep.faults.entry("token_of_a_previous_connection_replayed".into()).or_insert(0) += 1;
